@@ -79,9 +79,12 @@ class ValueLog:
         self.ops = []
         self.objs = []
         self.gets = {}
+        self.after = None       # optional hook called with the op's index after the real call returned normally
 
     def set_pid_logged(self, pid):
         self.ops.append(('P', str(pid)))
+        if self.after:
+            self.after(len(self.ops) - 1)
 
 
 def logging_subclass(base, log):
@@ -91,22 +94,33 @@ def logging_subclass(base, log):
             log.objs.append(self)
             log.ops.append(('C', typ, metric_name, name, tuple(labelnames), tuple(labelvalues), help_text,
                             multiprocess_mode))
+            at = len(log.ops) - 1
             super().__init__(typ, metric_name, name, labelnames, labelvalues, help_text,
                              multiprocess_mode=multiprocess_mode, **kwargs)
+            if log.after:
+                log.after(at)
 
         def inc(self, amount):
             log.ops.append(('I', self._log_idx, amount))
-            return super().inc(amount)
+            at = len(log.ops) - 1
+            super().inc(amount)
+            if log.after:
+                log.after(at)
 
         def set(self, value, timestamp=None):
             log.ops.append(('S', self._log_idx, value, timestamp))
-            return super().set(value, timestamp=timestamp)
+            at = len(log.ops) - 1
+            super().set(value, timestamp=timestamp)
+            if log.after:
+                log.after(at)
 
         def get(self):
             log.ops.append(('G', self._log_idx))
             at = len(log.ops) - 1
             r = super().get()
             log.gets[at] = r
+            if log.after:
+                log.after(at)
             return r
 
     return LoggedValue
@@ -252,8 +266,21 @@ def fams_fingerprint(canon):
 
 
 # ------------------------------------------------------------------------------------------------ wire: requests
+_KEY_CACHE = {}
+
+
 def parse_key(key):
-    """trusted json round trip, validated on every key: -> (metric, name, sorted label pairs, help)"""
+    """trusted json round trip, validated on every distinct key: -> (metric, name, sorted label pairs, help)"""
+    hit = _KEY_CACHE.get(key)
+    if hit is not None:
+        return hit
+    r = _parse_key(key)
+    if len(_KEY_CACHE) < 200000:
+        _KEY_CACHE[key] = r
+    return r
+
+
+def _parse_key(key):
     try:
         metric, name, labels, help_text = json.loads(key)
         ok = (isinstance(metric, str) and isinstance(name, str) and isinstance(help_text, str) and isinstance(labels, dict)
